@@ -11,6 +11,7 @@ tvars == <<tid, judged>>
 TraceInit == /\ tid \in 1..N /\ judged = FALSE
              /\ msg = Obs[tid].msg /\ q = Obs[tid].q
              /\ st = "start" /\ smode = "?" /\ nsym = 0 /\ sver = NoVersionSA /\ syms = <<>> /\ res = "?" /\ devs = {}
+             /\ padmode \in {"iso", "dev"}
 Terminal == st \in {"returned", "returned_overfull", "done"}
 Judge == /\ Terminal /\ ~judged /\ judged' = TRUE /\ UNCHANGED <<savars, tid>>
          /\ LET o == Obs[tid]
